@@ -126,6 +126,15 @@ def _chain_builders():
             v = {"k": v, "n": a + i}
         return v
 
+    def dotted_rec(d, a, b):
+        import datetime
+
+        with NoTracing():  # a real date object (under tracing the engine substitutes its own pure-Python date class)
+            v = datetime.date(2020, 1, 2)
+            for i in range(d):
+                v = {"k": v}
+        return v
+
     def union_rec(d, a, b):  # UnionRec = "t.Union[list[UnionRec], int]"
         v = b
         for i in range(d):
@@ -134,7 +143,7 @@ def _chain_builders():
 
     return {"Chain": (M.Chain, chain), "PNode": (M.PNode, pnode), "Tree": (M.Tree, tree), "DNode": (M.DNode, dnode),
             "TNode": (M.TNode, tnode), "Ping": (M.Ping, ping), "RecAlias": (M.RecAlias, rec_alias), "OptRec": (M.OptRec, opt_rec),
-            "UnionRec": (M.UnionRec, union_rec)}
+            "UnionRec": (M.UnionRec, union_rec), "DottedRec": (M.DottedRec, dotted_rec)}
 
 
 def _levels(v, depth=0):
